@@ -554,7 +554,7 @@ func cmdCheck(args []string) int {
 	ev.Coverage = map[string]any{
 		"obligations":              nObl,
 		"discharged":               nDis,
-		"checker_cmd":              fmt.Sprintf("%s/bin/govc check -property %s -tier %s (z3 4.8.12 and z3 5.1.0 with auto_config=false smt.mbqi=false, z3 5.1.0 default, cvc5 1.0.3; first unsat wins%s)", root, *prop, *tier, map[bool]string{true: "; all solvers must agree", false: ""}[cfg.Agree]),
+		"checker_cmd":              fmt.Sprintf("%s/bin/govc check -property %s -tier %s (z3 4.8.12 and z3 5.1.0, each with auto_config=false smt.mbqi=false and with defaults, cvc5 1.0.3; first unsat wins%s)", root, *prop, *tier, map[bool]string{true: "; all solvers must agree", false: ""}[cfg.Agree]),
 		"trusted_base":             append([]string{"govc translator and memory model (A3)", "go/types (A4)", "z3 / cvc5 answers"}, pc.Paper...),
 		"functions_under_contract": fnList,
 		"discharged_by_solver":     bySolver,
@@ -568,6 +568,24 @@ func cmdCheck(args []string) int {
 	}
 	if len(samples) == 0 {
 		ev.Coverage["samples"] = []any{"(no obligation discharged on this run)"}
+	}
+	{
+		// the slowest discharged obligations: the ones closest to the timeout, i.e. the candidates for instability
+		var sl []*checkItem
+		for _, it := range items {
+			if !it.Cover && it.Good && it.Secs > 2 {
+				sl = append(sl, it)
+			}
+		}
+		sort.SliceStable(sl, func(i, j int) bool { return sl[i].Secs > sl[j].Secs })
+		if len(sl) > 10 {
+			sl = sl[:10]
+		}
+		var out []string
+		for _, it := range sl {
+			out = append(out, fmt.Sprintf("%s %.1fs (%s)", it.Name, it.Secs, it.Solver))
+		}
+		ev.Coverage["slowest_discharged"] = out
 	}
 	byKind := map[string]int{}
 	var names []string
